@@ -26,6 +26,13 @@ def chunk_specs(draw, thorough):
     ch["gapfrac"] = draw(st.sampled_from([0.05, 0.3, 0.6, 0.85, 0.95]))
     ch["eol"] = draw(st.sampled_from(["\n", "\n", "\r\n"]))
     ch["final_eol"] = draw(st.sampled_from([True, True, True, False]))
+    if draw(st.integers(0, 14)) == 0 and ch["gapmode"] != "none":
+        # very long physical lines: the alignment padded to 65000..70000 columns and written as one unwrapped block
+        ch["min_width"] = draw(st.sampled_from([65534, 65535, 65536, 66000, 70000]))
+        ch["unwrapped"] = True
+        ch["gapmode"] = "aligned"
+        if fmt == "fasta":
+            ch["width"] = 0
     if fmt == "fasta":
         ch["width"] = draw(st.sampled_from([0, 1, 7, 59, 60, 61, 80, 200]))
         ch["trail"] = draw(st.sampled_from(["", "", " ", "   "]))
@@ -126,6 +133,8 @@ def check(case):
             cl.append("crlf")
         if not ch.get("final_eol", True):
             cl.append("no_final_newline")
+        if ch.get("min_width"):
+            cl.append("line>=65534_chars")
         if ch["fmt"] == "fasta" and ch["width"] not in (0, 60):
             cl.append("wrap")
     cl = sorted(set(cl))
